@@ -117,3 +117,47 @@ theorem checkLockedEqual_eq_generated (now : Nat) (h : Hold) (c : Cmd) (hms : c.
         simp [e1, e2]
 
 end Slock.Engine
+
+/-! ### deadline formulas (fragment kernels)
+
+Every place in the Go source that computes an expiry or a wait deadline from a command is regenerated (`K.expAddLock`,
+`K.expUpdate`, `K.expNew`, `K.expAck`, `K.toUpdate`, `K.toNew`; uint16 arithmetic wraps in the translation exactly as in Go) and
+proved equal to the one formula M-ENGINE uses, for second / minute / unlimited units (millisecond flag 0x0400 clear). -/
+namespace Slock.Engine
+open Slock.Gen
+
+theorem has_ne (x m : Nat) : ((x &&& m) != 0) = has x m := by
+  unfold has; rfl
+
+theorem expDeadline_generated (now : Nat) (c : Cmd) (hms : c.eflag &&& 1024 = 0) :
+    K.expAddLock now c.eflag c.expried = (expiryDeadline now c : Int) := by
+  unfold K.expAddLock expiryDeadline has EF_UNLIMITED EF_MINUTE INF_TIME
+  simp only [hms]
+  by_cases hu : c.eflag &&& 16384 = 0
+  · by_cases hm : c.eflag &&& 64 = 0
+    · simp [hu, hm]
+    · simp [hu, hm]
+  · simp [hu]
+
+/-- the five copies of the expiry formula agree (AddLock, UpdateLockedLock, GetOrNewLock, DoAckLock) -/
+theorem exp_copies_agree (s : Int) (f e : Nat) :
+    K.expUpdate s f e = K.expAddLock s f e ∧ K.expNew s f e = K.expAddLock s f e ∧ K.expAck s f e = K.expAddLock s f e :=
+  ⟨rfl, rfl, rfl⟩
+
+theorem toDeadline_generated (now : Nat) (c : Cmd) (hms : c.tflag &&& 1024 = 0) :
+    K.toNew now c.tflag c.timeout = (timeoutDeadline now c : Int) := by
+  unfold K.toNew timeoutDeadline has TF_MINUTE
+  simp only [hms]
+  by_cases hm : c.tflag &&& 64 = 0
+  · simp [hm]
+  · simp [hm]
+
+theorem to_copies_agree (s : Int) (f t : Nat) : K.toUpdate s f t = K.toNew s f t := rfl
+
+/-- millisecond unit (outside M-ENGINE's clock): the deadline is start + ⌊ms/1000⌋ + 1 in every copy -/
+theorem exp_ms_generated (s : Int) (f e : Nat) (hu : f &&& 16384 = 0) (hms : f &&& 1024 ≠ 0) :
+    K.expAddLock s f e = s + ((e / 1000 : Nat) : Int) + 1 := by
+  unfold K.expAddLock
+  simp [hu, hms]
+
+end Slock.Engine
